@@ -175,6 +175,18 @@ CHECKS['C17'] = dict(
    technique='contract-based deductive verification of the flag translators + bounded runtime comparison of CLI and library',
    design_ref='DESIGN.md 5 C17')
 
+CHECKS['C05'] = dict(
+   category='other',
+   text='Mixed. Proved: resolve_option_flag (None/True -> all columns, False -> none, list as given, function applied to the frame). '
+        'Exhaustive-domain: types_match satisfies the laws of the property (strict iff names equal, reflexive, symmetric, strict <= '
+        'medium <= permissive) for every ordered pair of the dtype names the installed pandas/numpy produce x 4 levels. Bounded '
+        '(labelled): check_dataframe / assertDataFramesEqual / file entry points on frame pairs over 11 column types: a copy passes, '
+        'a changed checked cell, null-vs-value, a change beyond the precision, renamed/retyped/moved/missing/extra columns and changed '
+        'row counts fail - as assertion failures with a message, never internal errors; option flags, sortby, condition.',
+   note='Trusted: pandas frame operations. The decision skeleton of check_dataframe is bounded only (3-row frames).',
+   technique='contract-based deductive verification of option resolution + exhaustive-domain type laws + bounded runtime contracts',
+   design_ref='DESIGN.md 5 C05')
+
 NA_REASON = 'check under construction in this session (see DESIGN.md 8, build order)'
 
 def main():
